@@ -47,7 +47,12 @@ def mutate(a, D, leaf=scalars):
             st.fixed_dictionaries({k: mutate(v, D, leaf) for k, v in a.items()}),
             st.builds(lambda k, v: {**a, k: v}, keys, D),
             st.builds(lambda k: {kk: vv for kk, vv in a.items() if kk != k}, keys),
-            st.builds(lambda k, k2: {(k2 if kk == k else kk): vv for kk, vv in a.items()}, keys, keys))
+            st.builds(lambda k, k2: {(k2 if kk == k else kk): vv for kk, vv in a.items()}, keys, keys),
+            # rename a key to a *similar* key (partial string edit on the key) and, half of the time, change its value too
+            st.builds(lambda i, suf, v, chg: {((kk + suf if suf != 'rev' else kk[::-1] + 'x') if j == i % max(len(a), 1) else kk):
+                                              (v if (chg and j == i % max(len(a), 1)) else vv)
+                                              for j, (kk, vv) in enumerate(a.items())},
+                      st.integers(0, 10), st.sampled_from(['x', '2', 'rev']), D, st.booleans()))
     return st.one_of(st.just(a), leaf)
 
 
@@ -66,10 +71,85 @@ options = st.tuples(st.sampled_from(common.DS), st.sampled_from(common.LE))
 
 
 @st.composite
+def builder_cases(draw, max_leaves=10, max_width=4):
+    """The same documents, built through the Builder framework (BasicBuilder / pydiff.build_tree) instead of json.build_tree."""
+    a, b = draw(doc_pairs(max_leaves, max_width))
+    ds, le = draw(options)
+    return {'family': draw(st.sampled_from(['builder', 'pydiff'])), 'a': a, 'b': b, 'ds': ds, 'le': le}
+
+
+@st.composite
 def json_cases(draw, max_leaves=10, max_width=4, leaf=scalars):
     a, b = draw(doc_pairs(max_leaves, max_width, leaf))
     ds, le = draw(options)
     return {'family': 'json', 'a': a, 'b': b, 'ds': ds, 'le': le}
+
+
+# -- skewed sizes: a few long strings / long flat lists among small values, multi-character keys ---------------------------
+# (bounds arithmetic such as clamps and surplus-element estimates only shows when sizes differ a lot)
+
+BIG_KEYS = ['a', 'ba', 'e', 'fbc', 'ffa', 'name', 'value', 'k1', 'k2', 'id']
+big_leaf = st.one_of(
+    scalars, scalars,
+    st.text(alphabet='abcxyz ', min_size=8, max_size=30),
+    st.sampled_from(['lorem ipsum dolor sit amet', 'CONSECTETUR ADIPISCING ELIT', 'a' * 30, 'a' * 29 + 'b']))
+
+
+def skewed_docs(max_leaves=8):
+    long_list = st.lists(st.integers(0, 9), min_size=5, max_size=8)
+    leaf = st.one_of(big_leaf, long_list)
+    return st.recursive(
+        leaf,
+        lambda ch: st.one_of(st.lists(ch, max_size=3), st.dictionaries(st.sampled_from(BIG_KEYS), ch, max_size=4)),
+        max_leaves=max_leaves)
+
+
+@st.composite
+def skewed_cases(draw, max_leaves=8):
+    D = skewed_docs(max_leaves)
+    a = draw(D)
+    b = draw(st.one_of(D, mutate(a, D, big_leaf), mutate(a, D, big_leaf)))
+    ds, le = draw(options)
+    return {'family': 'json', 'a': a, 'b': b, 'ds': ds, 'le': le}
+
+
+# -- padded elements: list elements with a large shared part and a small, loosely bounded difference -----------------
+# (an element's remove/insert cost then lies far above the interval of its pairwise edit, so make_distinct() does not
+#  tighten that edit as a side effect and whatever bounds it has when the cell is settled are what the list edit uses)
+
+@st.composite
+def padded_cases(draw):
+    n = draw(st.integers(1, 3))
+    small_list = st.lists(st.integers(0, 9), min_size=3, max_size=6)
+    small_val = st.one_of(small_list, st.sampled_from(['abcdef', 'abcxef', 'hello world', 'hello wurld']), st.integers(0, 99))
+    a, b = [], []
+    for i in range(n):
+        pad = draw(st.sampled_from(['a' * 30, 'lorem ipsum dolor sit amet', 'x' * 20]))
+        k = draw(st.sampled_from(['k1', 'key', 'name', 'ab']))
+        v = draw(small_val)
+        ea = {k: v, 'pad': pad}
+        how = draw(st.integers(0, 4))
+        if how == 0:
+            eb = dict(ea)
+        else:
+            k2 = k if how == 1 else draw(st.sampled_from([k + '2', k[:-1] + 'x', 'k2']))
+            v2 = v
+            if how != 2:
+                if isinstance(v, list):
+                    j = draw(st.integers(0, len(v) - 1))
+                    v2 = v[:j] + [draw(st.integers(0, 9)) for _ in range(draw(st.integers(0, 2)))] + v[j + 1:]
+                elif isinstance(v, str):
+                    j = draw(st.integers(0, len(v) - 1))
+                    v2 = v[:j] + 'Z' + v[j + 1:]
+                else:
+                    v2 = v + 1
+            eb = {k2: v2, 'pad': pad}
+        a.append(ea)
+        b.append(eb)
+    tail_a = draw(st.lists(st.sampled_from(['x', 'y', 1, 2]), max_size=2))
+    tail_b = draw(st.one_of(st.just(tail_a), st.lists(st.sampled_from(['x', 'y', 1, 2]), max_size=2)))
+    ds, le = draw(options)
+    return {'family': 'json', 'a': a + tail_a, 'b': b + tail_b, 'ds': ds, 'le': le}
 
 
 # -- nested lists (the shape C05's quiet-printer crash needs: lists nested >= 3 deep) -------------------------------
@@ -210,6 +290,12 @@ def build(case, which, opts=None):
     fam = case.get('family', 'json')
     if fam == 'json':
         return gjson.build_tree(doc, opts)
+    if fam == 'builder':
+        from graphtage.builder import BasicBuilder
+        return BasicBuilder(opts).build_tree(doc)
+    if fam == 'pydiff':
+        from graphtage import pydiff
+        return pydiff.build_tree(doc, opts)
     if fam == 'multiset':
         return build_multiset(doc, opts)
     if fam == 'xml':
